@@ -184,6 +184,32 @@ theorem slice_read_no_longer_than_source (s : BState) (a : Nat) (xs : List Val) 
     injection hr with hr
     exact ⟨pick xs idx, hr.symm, pick_slice_length_le xs lo hi st idx hsl⟩
 
+/-- the same for a string and for a host tuple: a successful slice read returns a string / tuple of at most the source's
+    length and allocates nothing (the state is returned as it was) -/
+theorem string_slice_no_longer_than_source (s : BState) (cs : List Char) (lo hi st : Option Int) (r : Val × BState)
+    (hr : pyGetItem s (.str cs) (.slice lo hi st) = .ok r) :
+    ∃ ys, r = (.str ys, s) ∧ ys.length ≤ cs.length := by
+  unfold pyGetItem at hr
+  simp only at hr
+  cases hsl : sliceIndices cs.length lo hi st with
+  | error e => rw [hsl] at hr; cases hr
+  | ok idx =>
+    rw [hsl] at hr
+    injection hr with hr
+    exact ⟨pick cs idx, hr.symm, pick_slice_length_le cs lo hi st idx hsl⟩
+
+theorem tuple_slice_no_longer_than_source (s : BState) (vs : List Val) (lo hi st : Option Int) (r : Val × BState)
+    (hr : pyGetItem s (.tuple vs) (.slice lo hi st) = .ok r) :
+    ∃ ys, r = (.tuple ys, s) ∧ ys.length ≤ vs.length := by
+  unfold pyGetItem at hr
+  simp only at hr
+  cases hsl : sliceIndices vs.length lo hi st with
+  | error e => rw [hsl] at hr; cases hr
+  | ok idx =>
+    rw [hsl] at hr
+    injection hr with hr
+    exact ⟨pick vs idx, hr.symm, pick_slice_length_le vs lo hi st idx hsl⟩
+
 /-- non-vacuity: `[1, 2, 3][::-2]` selects two positions, `[1, 2, 3][-100:100]` three -/
 example : (sliceIndices 3 none none (some (-2))).toOption.map List.length = some 2 ∧
     (sliceIndices 3 (some (-100)) (some 100) none).toOption.map List.length = some 3 := by decide +kernel
